@@ -148,7 +148,8 @@ class Scope(FortranObj):
             if def_error is not None:
                 errors.append(def_error)
             # Detect contains errors
-            if contains_line >= child.sline and child.get_type(no_link=True) in (
+            # (strictly: `contains; subroutine s` may share a line)
+            if contains_line > child.sline and child.get_type(no_link=True) in (
                 SUBROUTINE_TYPE_ID,
                 FUNCTION_TYPE_ID,
             ):
@@ -235,7 +236,8 @@ class Scope(FortranObj):
                     find_word=use_stmnt.mod_name,
                 )
                 errors.append(new_diag)
-        if (self.implicit_line is not None) and (last_use_line >= self.implicit_line):
+        # (strictly: `use m; implicit none` may share a line)
+        if (self.implicit_line is not None) and (last_use_line > self.implicit_line):
             new_diag = Diagnostic(
                 self.implicit_line - 1,
                 message="USE statements after IMPLICIT statement",
